@@ -155,7 +155,13 @@ class CSSCharsetRule(cssrule.CSSRule):
                 # codecs which are no text encodings (e.g. ``hex``) or do not
                 # support error handlers (``idna``) cannot be used
                 'a'.encode(encoding, 'replace')
-            except (LookupError, UnicodeError):
+                # the rule must be found again in what is written (not the
+                # case for e.g. EBCDIC code pages)
+                probe = ('@charset "%s";' % encoding).encode(encoding)
+                found = cssutils.codec.detectencoding_str(probe, True)[0]
+                if codecs.lookup(found).name != codecs.lookup(encoding).name:
+                    raise LookupError()
+            except (LookupError, UnicodeError, ValueError):
                 self._log.error(
                     'CSSCharsetRule: Unknown (Python) encoding %r.' % encoding
                 )
